@@ -197,12 +197,17 @@ class Engine:
         cu = getattr(fn, "_cmpuses", None)
         if cu is None:
             cu = {}
+            users = fn.users()
             for j in fn.insts():
                 if j["op"] in ("icmp", "switch", "select"):
                     ops = j.get("ops", ()) if j["op"] != "switch" else (j["cond"],)
+                    w = 1
+                    if j["op"] == "icmp":
+                        # one comparison consumed by several branches (after CSE) counts once per consumer
+                        w = max(1, sum(1 for u in users.get(j["id"], ()) if u["op"] in ("br", "select", "phi", "zext", "and", "or", "xor")))
                     for o in ops:
                         if o.get("k") == "v":
-                            cu[o["id"]] = cu.get(o["id"], 0) + 1
+                            cu[o["id"]] = cu.get(o["id"], 0) + w
                 elif j["op"] in ("zext", "sext", "trunc", "add", "sub", "mul", "shl", "udiv", "lshr"):
                     pass
             fn._cmpuses = cu
@@ -506,7 +511,8 @@ class Engine:
             pred, x, y = t[1], t[2], t[3]
             pp = _plain(pred if val else NEG[pred])
             d = x - y
-            if any((_core(a) in s.loopdef and (s.precision != "high" or _core(a) not in s.hdrphi)) or _core(a) in s.nofacts for a in d.t):
+            pinned = getattr(s.plugin, "pinned", ())
+            if any(a not in pinned and ((_core(a) in s.loopdef and (s.precision != "high" or _core(a) not in s.hdrphi)) or _core(a) in s.nofacts) for a in d.t):
                 return facts          # facts about loop-header phis are kept for the current iteration (killed on re-entry); other loop-variant data is not tracked
             new = []
             ne = facts.ne
@@ -623,6 +629,8 @@ class Engine:
                 s.atom_op[pre + i["id"]] = i["op"]
                 if inloop:
                     s.loopdef.add(pre + i["id"])
+                    if i["op"] not in ("call", "invoke", "load", "phi") and s.worth_facts(fn, i):
+                        s.hdrphi.add(pre + i["id"])      # a loop-variant value tested in several places: correlated branches must agree within one iteration
                 elif not s.worth_facts(fn, i):
                     s.nofacts.add(pre + i["id"])       # tested at most once: a fact about it can never decide a later branch
         def dead(a):
@@ -1324,11 +1332,11 @@ def fn_phi_defs(fn, bb):
 LOW_PRECISION = {"safec_vsnprintf_s", "_wcsnorm_compose_s_chk", "_wcsfc_s_chk"}
 
 
-def run_adaptive(prog, fn, make_plugin, budgets=(60000, 400000), noinline=()):
+def run_adaptive(prog, fn, make_plugin, budgets=(60000, 400000), noinline=(), low_set=None):
     """explore with full precision under a modest budget; fall back to the coarse setting (sound, less precise) when the path space is too large"""
     last = None
     plan = list(zip(("high", "low"), budgets))
-    if fn.name in LOW_PRECISION:
+    if fn.name in (LOW_PRECISION if low_set is None else low_set):
         plan = plan[1:]
     for prec, b in plan:
         eng = Engine(prog, fn, make_plugin(), budget=b, noinline=noinline, precision=prec)
